@@ -84,24 +84,40 @@ func c11Profile(tier string) *eng.Profile {
 
 // c11AfterMerge: power loss during a commit that follows a successful Merge (and a reopen): the
 // durability of ordinary transactions must not depend on what ran before them.
-func c11AfterMergeProfile(tier string) *eng.Profile {
+func c11AfterMergeProfile(tier string) *eng.Profile { return afterMergeProfile(tier, "C11") }
+
+// afterMergeProfile: commits that follow a Merge, under power loss (C11) or process crash (C10).
+func afterMergeProfile(tier, id string) *eng.Profile {
 	ops := func(cfg core.Cfg) []core.Op {
 		return []core.Op{
 			up(core.Call{F: "Put", B: bKV, K: "a", V: "m1"}, core.Call{F: "Put", B: bKV, K: "ab", V: "m2"}, core.Call{F: "Put", B: bKV, K: "c", V: "m3"}),
+			// a second multi-record transaction with other values: applied in part it equals neither
+			// the state before it nor the state after it, whatever preceded it
+			up(core.Call{F: "Put", B: bKV, K: "a", V: "n1"}, core.Call{F: "Put", B: bKV, K: "ab", V: "n2"}),
 			up(core.Call{F: "Put", B: bKV, K: "a", V: "x"}),
 			up(core.Call{F: "Delete", B: bKV, K: "ab"}),
 			{Kind: "merge"},
 			{Kind: "reopen"},
 		}
 	}
-	p := &eng.Profile{ID: "C11", Name: "powerloss-after-merge",
+	p := &eng.Profile{ID: id, Name: "powerloss-after-merge",
 		Cfgs:  []core.Cfg{{Mode: core.KV, RW: core.F, Start: core.F, Sync: true, Seg: 100}, {Mode: core.KV, RW: core.M, Start: core.M, Sync: true, Seg: 100}, {Mode: core.K, RW: core.F, Start: core.F, Sync: true, Seg: 100}},
 		Ops:   ops,
 		Obs:   mixedObsFor,
 		Depth: 4,
 	}
+	if id == "C10" {
+		p.Name = "crash-after-merge"
+		p.Cfgs = []core.Cfg{{Mode: core.KV, Seg: 100}, {Mode: core.KV, RW: core.M, Start: core.M, Seg: 100}, {Mode: core.K, Seg: 100}}
+	}
 	p.Run = func(p *eng.Profile, cfg core.Cfg, hist []core.Op, leaf *eng.Leaf) {
-		eng.CrashLeaf(p, cfg, hist, leaf, eng.CrashOpt{Prop: "C11", PowerLoss: true, OnlyLastOp: true})
+		if id == "C10" {
+			eng.SetProbeAfterRecovery(true)
+			eng.CrashLeaf(p, cfg, hist, leaf, eng.CrashOpt{Prop: "C10", Torn: true, OnlyLastOp: true})
+			eng.SetProbeAfterRecovery(false)
+		} else {
+			eng.CrashLeaf(p, cfg, hist, leaf, eng.CrashOpt{Prop: "C11", PowerLoss: true, OnlyLastOp: true})
+		}
 		for _, o := range hist[:len(hist)-1] {
 			if o.Kind == "merge" && hist[len(hist)-1].IsWrite() {
 				if leaf.Features == nil {
@@ -171,6 +187,7 @@ func init() {
 		Register(c10Profile(tier))
 		Register(c11Profile(tier))
 		Register(c11AfterMergeProfile(tier))
+		Register(afterMergeProfile(tier, "C10"))
 		Register(c16Profile(tier))
 	})
 	crashExtra := func(r *Run) {
@@ -178,9 +195,11 @@ func init() {
 	}
 	Registry["C10"] = func(r *Run) {
 		crashExtra(r)
-		r.Rule = "workloads: every history of <=depth ops over the crash alphabet (single/multi-record transactions on all structures, a transaction failing after its first record, same-millisecond commits) from every distinct reachable start state; the file-system event log of the run is recorded by the shims; for EVERY file-mutation point of the last op and every torn prefix of every write (every record-field boundary, 1, m/2, m-1) the directory image is rebuilt, opened with the real Open, observed, and must equal the model after the acknowledged ops or that plus the in-flight committed op; Open must succeed; a second open must show the same. distinct_nontrivial counts distinct workloads that produced torn or multi-event images"
+		r.Rule = "workloads: every history of <=depth ops over the crash alphabet (single/multi-record transactions on all structures, a transaction failing after its first record, same-millisecond commits) from every distinct reachable start state; the file-system event log of the run is recorded by the shims; for EVERY file-mutation point of the last op and every torn prefix of every write (every record-field boundary, 1, m/2, m-1) the directory image is rebuilt, opened with the real Open, observed, and must equal the model after the acknowledged ops or that plus the in-flight committed op; Open must succeed; a second open must show the same. distinct_nontrivial counts distinct workloads that produced torn or multi-event images; a crash-after-merge profile (depth 4/5 over {two multi-record transactions with different values, put, delete, Merge, reopen}) does the same for commits that follow a Merge"
 		r.Assume = []string{"process crash: every executed write survives (page cache / MAP_SHARED)", "queries whose clean in-process answer already disagrees with the model (other properties' defects) are excluded per workload and counted"}
 		r.Explore(c10Profile(r.Tier), "C10")
+		r.Required = append(r.Required, "commit-after-merge")
+		r.Explore(afterMergeProfile(r.Tier, "C10"), "C10")
 	}
 	Registry["C11"] = func(r *Run) {
 		crashExtra(r)
